@@ -59,6 +59,8 @@ def gen_world20(rng):
         w.actions.append(a)
     if g2:
         w.funcs.append(g2)
+    if rng.random() < 0.12:
+        plant_arity(rng, w, rng.choice(w.actions))
     return w
 
 
@@ -267,6 +269,59 @@ def build_alias(rng, w, plans, calls_per_action, noise=True):
             "probes": probes, "features": sorted(w.features), "world": w}
 
 
+
+# ------------------------------------------------------------------------------------------------ round 3: outside the fragment
+# A literal with fewer / more arguments than its predicate declares passes the domain parser and must make every grounding of
+# its action raise (ValueError; the code used to truncate or pad with the domain's constants -- requests/C02.md R2, D46).
+def plant_arity(rng, w, a):
+    scope = list(a["params"])
+    names = [v for v, _ in scope] + [c for c, _ in w.consts]
+    cands = [(n, ps) for n, ps in w.preds if ps or names]
+    if not cands:
+        return False
+    n, ps = rng.choice(cands)
+    pools = [G.terms_for(rng, w, scope, t) for _, t in ps]
+    if not all(pools):
+        return False
+    args = [rng.choice(pl) for pl in pools]
+    if len(set(args)) < len(args):
+        return False
+    if args and (not names or rng.random() < 0.5):
+        args = args[:-1]
+        w.features.add("arity-missing-argument")
+    else:
+        extra = [x for x in names if x not in args]
+        if not extra:
+            return False
+        args = args + [rng.choice(extra)]
+        w.features.add("arity-surplus-argument")
+    lit = [n] + args
+    lit = lit if rng.random() < 0.7 else ["not", lit]
+    pre = a["pre"]
+    if not (isinstance(pre, list) and pre and pre[0] == "and"):
+        pre = ["and"] + ([pre] if pre else [])
+    eff = list(a["eff"])
+    found = []
+    walk_atoms(a["pre"], dict(w.preds), found)
+    where = rng.choice(["pre", "pre-nested", "effect", "when-ante", "when-effect"])
+    good = found[0] if found else None
+    if where == "pre":
+        pre = pre + [lit]
+    elif where == "pre-nested":
+        pre = pre + [["or", lit] + ([good] if good else [])]
+    elif where == "effect":
+        eff = eff + [lit]
+    elif where == "when-ante" and good:
+        eff = eff + [["when", ["and", lit], good]]
+    elif where == "when-effect" and good:
+        eff = eff + [["when", good, lit]]
+    else:
+        pre = pre + [lit]
+    a["pre"], a["eff"] = pre, eff
+    a["oof"] = True
+    return True
+
+
 # domain / problem pairs shipped under <repo>/tests.  The model and the independent spec reader (Spec/Grammar.v) read all of these
 # domains; fixtures with (:private ...) predicate blocks (multi-agent PDDL: blocks_ma_problem, domain-grinder0) are outside the spec reader.
 FIXTURES = [
@@ -427,6 +482,8 @@ def call_stats(stats, wd, pr, r):
         stats["typed_call_raised"] += 0 if "value" in o["call"] else 1
     else:
         stats["ground_raised"] += 1
+        if w is not None and any(x["name"] == pr["action"] and x.get("oof") for x in w.actions):
+            stats["ground_raised_arity_mismatch"] += 1
 
 
 def run(args):
@@ -448,14 +505,14 @@ def run(args):
         n, calls = {"quick": (80, 5), "thorough": (900, 8)}[args.tier]
         for _ in range(n):
             worlds.append(build(rng, gen_world20(rng), calls))
-        for _ in range({"quick": 60, "thorough": 600}[args.tier]):
+        for _ in range({"quick": 50, "thorough": 500}[args.tier]):
             aw, plans = gen_alias_world(rng)
             worlds.append(build_alias(rng, aw, plans, calls))
     hashseeds = [0] if args.tier == "quick" else [0, 1, 2]
     stats = {"worlds": 0, "calls": 0, "calls_with_repeated_object": 0, "calls_with_constant_argument": 0,
              "calls_with_subtype_argument": 0, "calls_binding_one_object_to_twin_terms": 0,
              "collections_same_untyped_different_typed": 0, "collections_same_typed_reported_twice": 0, "pre_literals": 0, "pre_lifted_literals": 0, "pre_numeric": 0, "eq_pairs": 0,
-             "effect_groups": 0, "effect_literals": 0, "effect_numeric": 0, "typed_call_raised": 0, "ground_raised": 0,
+             "effect_groups": 0, "effect_literals": 0, "effect_numeric": 0, "typed_call_raised": 0, "ground_raised": 0, "ground_raised_arity_mismatch": 0,
              "features": {}}
     lits, units, cases = [], [], []
     streams = []
